@@ -115,8 +115,13 @@ ESC_FILLERS = ["<!DOCTYPE html\x1b(B>", "\x1b(B<!DOCTYPE html>", "<!DOCTYPE\x1b(
                "<!DOCTYPE html PUBLIC \"\x1b(B-//W3C//DTD HTML 4.01 Transitional//EN\">",
                # markup the first attempt sees and ISO-2022-JP swallows (two-byte mode); only elements after which a
                # <meta> start tag still reaches the in-head handler
-               "\x1b$B<form>\x1b(B", "\x1b$B<table>\x1b(B", "\x1b$B<b><i>\x1b(B", "\x1b$B<pre>\x1b(B", "\x1b$B<table><tr><td>\x1b(B",
-               "\x1b$B<p>\x1b(B", "\x1b$B<a href=x>\x1b(B", "\x1b$B<body a=b>\x1b(B", "\x1b$B<html c=d>\x1b(B", "\x1b$B<nobr>\x1b(B"]
+               # (an EVEN number of bytes between the escapes: in two-byte mode an odd byte would pair up with the ESC that
+               # is meant to end the mode, and the rest of the document would stay swallowed)
+               "\x1b$B<form>\x1b(B", "\x1b$B<table >\x1b(B", "\x1b$B<b><i>\x1b(B", "\x1b$B<pre >\x1b(B", "\x1b$B<table><tr><td >\x1b(B",
+               "\x1b$B<p >\x1b(B", "\x1b$B<a href=x>\x1b(B", "\x1b$B<body a=b>\x1b(B", "\x1b$B<html c=d>\x1b(B", "\x1b$B<nobr>\x1b(B"]
+for _f in ESC_FILLERS:
+    if "\x1b$B" in _f:
+        assert len(_f[_f.index("\x1b$B") + 3:_f.index("\x1b(B", 3)]) % 2 == 0, _f
 BODY_PIECES = [b"caf\xe9", b"\xc3\xa9t\xc3\xa9", b"\x82\xa0\x82\xa2", b"\xa4\xa2\xa4\xa4", b"\xe2\x82\xac", b"\xf0\x9f\x98\x80",
                b"<p>", b"<b>x</b>", b"\r\n", b"\r", b"\xd0\x96", b"\x80", b"\xff", b"\xa0", b"&amp;", b"plain text ",
                b"<table><tr><td>\xe9</table>", b"\x81", b"\xe3\x81\x82", b"\xc0\xaf", b"\xed\xa0\x80", b"<!--\xe9-->",
